@@ -32,10 +32,10 @@ def setup(tier):
 
 
 def cases(tier, seed):
-    per = 24 if tier == "quick" else 1200
+    per = 24 if tier == "quick" else 4000
     out = _embedded.assembly_cases(seed, per * len(gen.enzyme_names()), features=True, max_chain=4)
-    out += _embedded.registry_assembly_cases(seed, per_vector=1 if tier == "quick" else 10)
-    out += [{"kind": "two-level", "i": i, "seed": seed} for i in range(60 if tier == "quick" else 3000)]
+    out += _embedded.registry_assembly_cases(seed, per_vector=1 if tier == "quick" else 30)
+    out += [{"kind": "two-level", "i": i, "seed": seed} for i in range(60 if tier == "quick" else 10000)]
     return out
 
 
